@@ -6,6 +6,8 @@ import NurbsVerif.Lemmas.LayoutSweep
 import NurbsVerif.Lemmas.LayoutEval
 import NurbsVerif.Lemmas.Span
 import NurbsVerif.Lemmas.AssembleLayout
+import NurbsVerif.Lemmas.LayoutBoundaryVol
+import NurbsVerif.Lemmas.FitParams
 
 /-!
 # C13  One control-net layout convention across all modules
@@ -361,5 +363,120 @@ example :
       = curvePoint c13EvalVol.dw c13EvalVol.kw ((extractSurfacesUV c13EvalVol).map fun S =>
           surfacePoint S.du S.dv S.ku S.kv S.su S.sv S.pts (1/3) (1/2)) (1/4) := by
   decide +kernel
+
+/-! ## boundary sections as evaluated shapes (clamped ends, C18) -/
+
+/-- **Surface evaluation through the extracted curve families.**  For a surface with points of one
+    dimension and at least `degree+1` control points per direction, the point `evaluate_single` computes
+    at `(u, v)` is, in every coordinate,
+    * the degree-`du` curve point at `u` of the polygon `[C(v) for C in extract_curves(surf)['v']]`,
+    * the degree-`dv` curve point at `v` of the polygon `[C(u) for C in extract_curves(surf)['u']]`,
+    each curve evaluated by the curve evaluator with its own degree, knots and points. -/
+theorem surface_eval_through_extracted_curves {K : Type} [Field K] [LinearOrder K] [IsStrictOrderedRing K]
+    (S : Srf (List K) (ℕ → K)) (d : ℕ) (h : S.WF) (hd : ∀ p ∈ S.pts, p.length = d)
+    (hdu : S.du + 1 ≤ S.su) (hdv : S.dv + 1 ≤ S.sv) (u v : K) (j : ℕ) :
+    (surfacePoint S.du S.dv S.ku S.kv S.su S.sv S.pts u v).getD j 0
+      = (curvePoint S.du S.ku ((extractCurvesV S).map fun C => curvePoint C.deg C.kv C.pts v) u).getD j 0 ∧
+    (surfacePoint S.du S.dv S.ku S.kv S.su S.sv S.pts u v).getD j 0
+      = (curvePoint S.dv S.kv ((extractCurvesU S).map fun C => curvePoint C.deg C.kv C.pts u) v).getD j 0 :=
+  ⟨surfacePoint_extractV S d h hd hdu hdv u v j, surfacePoint_extractU S d h hd hdu hdv u v j⟩
+
+/-- **The boundary iso-curves of a clamped surface are the curves of its boundary net slices.**
+    For a surface whose `u` knot function is non-decreasing with a non-empty last span (`KnotsOk`) and
+    clamped (`ClampedOk`: `U_1 = … = U_p`, `U_n = … = U_{n+p−1}`, first span non-empty), at the start
+    (`e = false`) / end (`e = true`) of the `u` domain and every `v`, the evaluated surface point is the
+    evaluated point at `v` of the first / last curve of `extract_curves(surf)['v']`. -/
+theorem surface_boundary_u_is_extracted_curve {K : Type} [Field K] [LinearOrder K] [IsStrictOrderedRing K]
+    (S : Srf (List K) (ℕ → K)) (d : ℕ) (h : S.WF) (hd : ∀ p ∈ S.pts, p.length = d)
+    (hUu : KnotsOk S.du S.ku S.su) (hcu : ClampedOk S.du S.ku S.su) (hdv : S.dv + 1 ≤ S.sv)
+    (e : Bool) (v : K) (j : ℕ) :
+    ∃ C, (extractCurvesV S)[if e then S.su - 1 else 0]? = some C ∧
+      (surfacePoint S.du S.dv S.ku S.kv S.su S.sv S.pts (if e then S.ku S.su else S.ku S.du) v).getD j 0
+        = (curvePoint C.deg C.kv C.pts v).getD j 0 :=
+  surfacePoint_boundary_u S d h hd hUu hcu hdv e v j
+
+/-- The same in the other direction: for a surface clamped in `v`, at the start / end of the `v` domain
+    and every `u`, the surface point is the point at `u` of the first / last curve of
+    `extract_curves(surf)['u']`. -/
+theorem surface_boundary_v_is_extracted_curve {K : Type} [Field K] [LinearOrder K] [IsStrictOrderedRing K]
+    (S : Srf (List K) (ℕ → K)) (d : ℕ) (h : S.WF) (hd : ∀ p ∈ S.pts, p.length = d)
+    (hUv : KnotsOk S.dv S.kv S.sv) (hcv : ClampedOk S.dv S.kv S.sv) (hdu : S.du + 1 ≤ S.su)
+    (e : Bool) (u : K) (j : ℕ) :
+    ∃ C, (extractCurvesU S)[if e then S.sv - 1 else 0]? = some C ∧
+      (surfacePoint S.du S.dv S.ku S.kv S.su S.sv S.pts u (if e then S.kv S.sv else S.kv S.dv)).getD j 0
+        = (curvePoint C.deg C.kv C.pts u).getD j 0 :=
+  surfacePoint_boundary_v S d h hd hUv hcv hdu e u j
+
+/-- **The boundary iso-surfaces of a clamped volume are the surfaces of its boundary net slices**, all
+    three directions: for a volume clamped in `w` (resp. `v`, `u`), at the start / end of that domain the
+    evaluated volume point is the evaluated point of the first / last surface of
+    `extract_surfaces(vol)['uv']` (resp. `['uw']`, `['vw']`) at the two remaining parameters. -/
+theorem volume_boundary_is_extracted_surface {K : Type} [Field K] [LinearOrder K] [IsStrictOrderedRing K]
+    (V : Vol (List K) (ℕ → K)) (d : ℕ) (h : V.WF) (hd : ∀ p ∈ V.pts, p.length = d)
+    (hdu : V.du + 1 ≤ V.su) (hdv : V.dv + 1 ≤ V.sv) (hdw : V.dw + 1 ≤ V.sw) (e : Bool) (a b : K) (j : ℕ) :
+    (KnotsOk V.dw V.kw V.sw → ClampedOk V.dw V.kw V.sw →
+      ∃ S, (extractSurfacesUV V)[if e then V.sw - 1 else 0]? = some S ∧
+        (volumePoint V.du V.dv V.dw V.ku V.kv V.kw V.su V.sv V.sw V.pts a b (if e then V.kw V.sw else V.kw V.dw)).getD j 0
+          = (surfacePoint S.du S.dv S.ku S.kv S.su S.sv S.pts a b).getD j 0) ∧
+    (KnotsOk V.dv V.kv V.sv → ClampedOk V.dv V.kv V.sv →
+      ∃ S, (extractSurfacesUW V)[if e then V.sv - 1 else 0]? = some S ∧
+        (volumePoint V.du V.dv V.dw V.ku V.kv V.kw V.su V.sv V.sw V.pts a (if e then V.kv V.sv else V.kv V.dv) b).getD j 0
+          = (surfacePoint S.du S.dv S.ku S.kv S.su S.sv S.pts a b).getD j 0) ∧
+    (KnotsOk V.du V.ku V.su → ClampedOk V.du V.ku V.su →
+      ∃ S, (extractSurfacesVW V)[if e then V.su - 1 else 0]? = some S ∧
+        (volumePoint V.du V.dv V.dw V.ku V.kv V.kw V.su V.sv V.sw V.pts (if e then V.ku V.su else V.ku V.du) a b).getD j 0
+          = (surfacePoint S.du S.dv S.ku S.kv S.su S.sv S.pts a b).getD j 0) :=
+  ⟨fun hU hc => volumePoint_boundary_w V d h hd hdu hdv hU hc e a b j,
+   fun hU hc => volumePoint_boundary_v V d h hd hdu hdw hU hc e a b j,
+   fun hU hc => volumePoint_boundary_u V d h hd hdv hdw hU hc e a b j⟩
+
+/-- **Sweep of a curve, evaluated**: the surface returned by the repaired `sweep_vector` (knot function
+    `kvGen` of `knotvector.generate(1, 2)`, clamped) satisfies `S(u_min, v) = C(v)` and
+    `S(u_max, v) = C'(v)`, `C'` the curve with the translated control points – every `v`, every coordinate. -/
+theorem sweep_curve_boundary_points {K : Type} [Field K] [LinearOrder K] [IsStrictOrderedRing K]
+    (tr : List K → List K) (kvGen : ℕ → K) (C : Crv (List K) (ℕ → K)) (d : ℕ)
+    (hn : 2 ≤ C.pts.length) (hdeg : C.deg + 1 ≤ C.pts.length) (hd : ∀ p ∈ C.pts, p.length = d)
+    (htr : ∀ p ∈ C.pts, (tr p).length = d) (hk : KnotsOk 1 kvGen 2) (hc : ClampedOk 1 kvGen 2) (v : K) (j : ℕ) :
+    ∃ S, sweepCurve tr kvGen C = some S ∧
+      (surfacePoint S.du S.dv S.ku S.kv S.su S.sv S.pts (kvGen 1) v).getD j 0 = (curvePoint C.deg C.kv C.pts v).getD j 0 ∧
+      (surfacePoint S.du S.dv S.ku S.kv S.su S.sv S.pts (kvGen 2) v).getD j 0
+        = (curvePoint C.deg C.kv (C.pts.map tr) v).getD j 0 :=
+  sweepCurve_boundary tr kvGen C d hn hdeg hd htr hk hc v j
+
+/-- **Sweep of a surface, evaluated**: the volume returned by `sweep_vector` satisfies
+    `V(u, v, w_min) = S(u, v)` and `V(u, v, w_max) = S'(u, v)`, `S'` the surface with the translated control
+    points – every `(u, v)`, every coordinate. -/
+theorem sweep_surface_boundary_points {K : Type} [Field K] [LinearOrder K] [IsStrictOrderedRing K]
+    (tr : List K → List K) (kvGen : ℕ → K) (S : Srf (List K) (ℕ → K)) (d : ℕ)
+    (h : S.WF) (hdu : S.du + 1 ≤ S.su) (hdv : S.dv + 1 ≤ S.sv) (hd : ∀ p ∈ S.pts, p.length = d)
+    (htr : ∀ p ∈ S.pts, (tr p).length = d) (hk : KnotsOk 1 kvGen 2) (hc : ClampedOk 1 kvGen 2) (u v : K) (j : ℕ) :
+    ∃ V, sweepSurface tr kvGen S = some V ∧
+      (volumePoint V.du V.dv V.dw V.ku V.kv V.kw V.su V.sv V.sw V.pts u v (kvGen 1)).getD j 0
+        = (surfacePoint S.du S.dv S.ku S.kv S.su S.sv S.pts u v).getD j 0 ∧
+      (volumePoint V.du V.dv V.dw V.ku V.kv V.kw V.su V.sv V.sw V.pts u v (kvGen 2)).getD j 0
+        = (surfacePoint S.du S.dv S.ku S.kv S.su S.sv (S.pts.map tr) u v).getD j 0 :=
+  sweepSurface_boundary tr kvGen S d h hdu hdv hd htr hk hc u v j
+
+/-- non-vacuity: the knot function of `knotvector.generate(1, 2) = [0, 0, 1, 1]` meets `KnotsOk` … -/
+example : KnotsOk 1 (fnOf ([0,0,1,1] : List ℚ)) 2 where
+  mono := fnOf_monotone_of_isSortedB _ (by decide +kernel)
+  pn := by omega
+  last := by decide +kernel
+
+/-- … and `ClampedOk` … -/
+example : ClampedOk 1 (fnOf ([0,0,1,1] : List ℚ)) 2 where
+  start := by intro i h1 h2; obtain rfl : i = 1 := by omega
+              rfl
+  stop := by intro i h1 h2; obtain rfl : i = 2 := by omega
+             rfl
+  first := by decide +kernel
+
+/-- … the `v` direction of `c13EvalVol` (degree 2, knots `[0,0,0,1,1,1]`, 3 points) too, and on that volume
+    the `v_max` boundary at `(1/3, ·, 1/4)` is the last `'uw'` surface at `(1/3, 1/4)` -/
+example : KnotsOk c13EvalVol.dv c13EvalVol.kv c13EvalVol.sv ∧
+    (extractSurfacesUW c13EvalVol)[2]?.map (fun S => surfacePoint S.du S.dv S.ku S.kv S.su S.sv S.pts (1/3) (1/4))
+      = some (volumePoint c13EvalVol.du c13EvalVol.dv c13EvalVol.dw c13EvalVol.ku c13EvalVol.kv c13EvalVol.kw
+          c13EvalVol.su c13EvalVol.sv c13EvalVol.sw c13EvalVol.pts (1/3) 1 (1/4)) :=
+  ⟨⟨fnOf_monotone_of_isSortedB _ (by decide +kernel), by decide, by decide +kernel⟩, by decide +kernel⟩
 
 end C13
